@@ -37,6 +37,14 @@ CHECKS = {
               'original predicate is executed and compared with the substitution semantics; made predicates are additionally compared with '
               'an explicitly cloned program. The functor cache is exercised (CallFunctor counter, equal bindings).'),
         note='trusted: reference evaluator; composition of substitutions as in DESIGN 4.21 rule 12'),
+    'C06': dict(
+        category='exploration', design_ref='DESIGN.md 4/C06',
+        technique='runtime differential monitor: every generated / corpus / corrupted input parsed by the Python parser and by the C++ parser built from the current source (ASan+UBSan build in the thorough tier); rule trees compared structurally',
+        text=('Grammar-directed programs covering the productions of docs/syntax.md, programs of the semantic generator, the repository\'s .l corpus, '
+              'layout variants and single-token corruptions are parsed under LOGICA_PARSER=PY and =CPP through parse.ParseFile; verdicts '
+              '(accept / ParsingException / internal error) and rule trees must agree. A native crash or sanitizer report aborts the shard and is '
+              'attributed to the journaled input.'),
+        note='trusted: the grammar generator derives only documented forms; number/escape forms outside docs/syntax.md are not generated'),
     'C07': dict(
         category='exploration', design_ref='DESIGN.md 4/C07',
         technique='runtime monitor: metamorphic comparison of a program and its permuted / renamed variants on the real pipeline + SQLite, admissible differences taken from the reference evaluator',
@@ -88,6 +96,14 @@ CHECKS = {
               'order and repetitions, stop-signal tolerance, logical termination bound); scheduler-state post-conditions are evaluated '
               'after every RunOneAction.'),
         note='trusted: the trace specification in vf/ref/sched_spec.py; configurations limited to the shapes the compiler emits'),
+    'C15': dict(
+        category='exploration', design_ref='DESIGN.md 4/C15',
+        technique='runtime monitor: metamorphic parse of layout variants (noise only at token boundaries) under both parsers, failing variants minimised to the responsible noise item; invariant check on every heritage-aware string of every parsed tree',
+        text=('Whitespace, newlines, # and /* */ comments (bodies full of separators and quotes) and a trailing semicolon are inserted at token '
+              'boundaries of generated programs; the rule tree with span-carrying keys dropped must equal the base tree under both parsers; every '
+              'span h must satisfy h.heritage[h.start:h.stop] == str(h) and point into a statement of the program. Failing variants are reduced '
+              '(ddmin) to the minimal noise and classified against the recorded mechanisms.'),
+        note='trusted: token boundaries of the generators; removal of optional spaces is not part of the statement and is not judged'),
     'C16': dict(
         category='exploration', design_ref='DESIGN.md 4/C16',
         technique='runtime monitor: reference-model oracle (term meet) over every observed Unify, exhaustive pair enumeration',
